@@ -1,0 +1,39 @@
+//go:build verif
+
+// Contracts for the deductive verifier in /verif (comment-only; compiled only with -tags verif).
+package diff
+
+//@ import connlist "github.com/np-guard/netpol-analyzer/pkg/netpol/connlist"
+
+// ---------------------------------------------------------------------------------------------
+// Re-merging of IP ranges (C04): entries are grouped under the key  <workload> ; <conn in ref1> ; <conn in ref2>  where an
+// absent side prints as the empty string. mergeBySrcOrDstIPPeers takes the sides of a whole group from its first member,
+// so every group must be uniform: all members present in ref1 or none, all present in ref2 or none.
+// ---------------------------------------------------------------------------------------------
+
+//@ pred pairOK(c *connsPair) = c != nil && (c.firstConn != nil ==> p2pOK(c.firstConn)) && (c.secondConn != nil ==> p2pOK(c.secondConn))
+// every member of the group filed under k was filed under a key whose two connection components say which sides it has
+//@ pred keyedGroups(m mapListConnPairs) = forall k string, i int :: {m[k][i]} (k in m && 0 <= i && i < len(m[k])) ==> (m[k][i] != nil
+//@     && (exists s string, c1 string, c2 string :: k == ((((s + ";") + c1) + ";") + c2) && noSemi(c1) && noSemi(c2)
+//@            && (c1 == "") == (m[k][i].firstConn == nil) && (c2 == "") == (m[k][i].secondConn == nil)))
+//@ pred groupUniform(m mapListConnPairs) = forall k string, i int :: {m[k][i]} (k in m && 0 <= i && i < len(m[k])) ==>
+//@     ((m[k][i].firstConn == nil) == (m[k][0].firstConn == nil) && (m[k][i].secondConn == nil) == (m[k][0].secondConn == nil))
+
+//@ func getConnStringsFromConnsPair
+//@   requires pairOK(c)
+//@   modifies *
+//@   ensures [C04] sides: err == nil ==> ((conn1 == "") == (c.firstConn == nil) && (conn2 == "") == (c.secondConn == nil) && noSemi(conn1) && noSemi(conn2))
+//@   ensures [C04] empty: (err != nil) == (c.firstConn == nil && c.secondConn == nil)
+//@   ensures [C04] pure: c.firstConn == old(c.firstConn) && c.secondConn == old(c.secondConn)
+
+//@ func (mapListConnPairs).addConnsPair
+//@   requires m != nil && keyedGroups(m) && pairOK(c) && (c.firstConn != nil || c.secondConn != nil)
+//@   modifies *
+//@   ensures [C04] keyed: keyedGroups(m)
+//@   ensures [C04] kept: forall k string, i int :: {m[k][i]} {old(m[k][i])} (old(k in m) && 0 <= i && i < old(len(m[k]))) ==> (k in m && i < len(m[k]) && m[k][i] == old(m[k][i]))
+//@   ensures [C04] filed: res == nil ==> (exists k string :: k in m && len(m[k]) > 0 && m[k][len(m[k]) - 1] == c)
+
+// the grouping invariant gives what the merge step relies on
+//@ lemma groupsUniform(m mapListConnPairs)
+//@   requires keyedGroups(m)
+//@   ensures [C04] uniform: groupUniform(m)
